@@ -47,6 +47,7 @@ class GeoInterp:
     def __init__(self, index_or_geo):
         self.index: RepoIndex = getattr(index_or_geo, 'index', index_or_geo)
         self._walks: Dict[int, GuardWalk] = {}
+        self._consts: Dict[int, Any] = {}
         self.gmod = self.index.module(GEOM)
 
     # ------------------------------------------------------------ dispatch
@@ -68,7 +69,7 @@ class GeoInterp:
         fn = self.method(cname, mname)
         ps = [a.arg for a in fn.node.args.args]
         bound = dict(zip(ps, (me,) + others))
-        return self.call(fn, bound)
+        return self._call(fn, bound)
 
     def mul(self, a, b):
         if a[0] in ('O', 'T'):
@@ -144,8 +145,12 @@ class GeoInterp:
                 v = vals[0]
                 if isinstance(v, ast.Dict):
                     return ('D', v, tmod)
-                if isinstance(v, (ast.Tuple, ast.List, ast.Set)):
-                    return self.eval(v, {}, tmod, depth)
+                hit = self._consts.get(id(v))
+                if hit is None:
+                    if depth <= 0:
+                        raise AnalysisError(f'geometry expression: constant `{e.id}` too deep')
+                    hit = self._consts[id(v)] = self.eval(v, {}, tmod, depth - 1)
+                return hit
             r = self.index.resolve_name(module, e.id)
             if isinstance(r, Func):
                 return ('F', r.name)
@@ -172,6 +177,25 @@ class GeoInterp:
                 if all(self._truth(self.eval(c, env2, module, depth)) for c in g.ifs):
                     out.append(self.eval(e.elt, env2, module, depth))
             return ('U', tuple(out))
+        if isinstance(e, ast.DictComp):
+            pairs: List[Tuple[Any, Any]] = []
+
+            def gens(i: int, env2: Dict[str, Any]):
+                if i == len(e.generators):
+                    pairs.append((self.eval(e.key, env2, module, depth),
+                                  self.eval(e.value, env2, module, depth)))
+                    return
+                g = e.generators[i]
+                it = self.eval(g.iter, env2, module, depth)
+                if it[0] != 'U':
+                    raise AnalysisError(f'geometry expression: comprehension over `{src(g.iter)}`')
+                for item in it[1]:
+                    env3 = dict(env2)
+                    self._bind(g.target, item, env3)
+                    if all(self._truth(self.eval(c, env3, module, depth)) for c in g.ifs):
+                        gens(i + 1, env3)
+            gens(0, dict(env))
+            return ('DV', tuple(pairs))
         if isinstance(e, ast.Attribute):
             v = ev(e.value)
             a = e.attr
@@ -204,10 +228,12 @@ class GeoInterp:
             raise AnalysisError(f'geometry expression: `{s}`')
         if isinstance(e, ast.Subscript):
             v = ev(e.value)
-            if v[0] == 'U' and isinstance(e.slice, ast.Constant) and \
-                    isinstance(e.slice.value, int):
-                return v[1][e.slice.value]
-            if v[0] == 'D':
+            if v[0] == 'U' and not isinstance(e.slice, ast.Slice):
+                i = ev(e.slice)
+                if i[0] == 'N' and i[1].is_const() and -len(v[1]) <= int(i[1].k) < len(v[1]):
+                    return v[1][int(i[1].k)]
+                raise AnalysisError(f'geometry expression: index `{s}`')
+            if v[0] in ('D', 'DV'):
                 return self.lookup(v, ev(e.slice), depth)
             raise AnalysisError(f'geometry expression: `{s}`')
         if isinstance(e, ast.UnaryOp) and isinstance(e.op, ast.USub):
@@ -236,6 +262,10 @@ class GeoInterp:
                         return ('N', a[1] * b[1])
                     except NonAffine:
                         raise AnalysisError(f'geometry expression: non-linear `{s}`')
+                if isinstance(e.op, (ast.Mod, ast.FloorDiv)) and a[1].is_const() and \
+                        b[1].is_const() and int(b[1].k) != 0:
+                    x, y = int(a[1].k), int(b[1].k)
+                    return ('N', Aff.const(x % y if isinstance(e.op, ast.Mod) else x // y))
             if isinstance(e.op, ast.Mult):
                 return self.mul(a, b)
             if isinstance(e.op, ast.Add):
@@ -282,6 +312,8 @@ class GeoInterp:
                     except AnalysisError:
                         pass
                 r = a in keys
+            elif b[0] == 'DV':
+                r = a in [k for k, _ in b[1]]
             elif b[0] == 'U':
                 r = a in b[1]
             else:
@@ -313,18 +345,30 @@ class GeoInterp:
             if len(a) == 2 and all(x[0] == 'U' and len(x[1]) == 2 and
                                    all(y[0] == 'N' for y in x[1]) for x in a):
                 return ('A', tuple(tuple(y[1] for y in x[1]) for x in a))
+        if f == 'len' and len(e.args) == 1 and not kw:
+            v = ev(e.args[0])
+            if v[0] in ('U', 'DV'):
+                return ('N', Aff.const(len(v[1])))
+        if isinstance(e.func, ast.Attribute) and e.func.attr == 'index' and len(e.args) == 1 \
+                and not kw:
+            v = ev(e.func.value)
+            if v[0] == 'U':
+                x = ev(e.args[0])
+                if x in v[1]:
+                    return ('N', Aff.const(v[1].index(x)))
+                return ('X', 'raise ValueError')
         if f == 'isinstance' and len(e.args) == 2:
             v = ev(e.args[0])
             t = e.args[1]
             names = [src(x) for x in (t.elts if isinstance(t, ast.Tuple) else [t])]
             return ('B', TAG.get(v[0]) in names)
         if f == 'Position.from_orientation' and len(e.args) == 1:
-            return self.call(self.method('Position', 'from_orientation'),
+            return self._call(self.method('Position', 'from_orientation'),
                              {self.method('Position', 'from_orientation').node.args.args[0].arg:
                               ev(e.args[0])})
         if isinstance(e.func, ast.Attribute) and e.func.attr == 'get' and 1 <= len(e.args) <= 2:
             d = ev(e.func.value)
-            if d[0] == 'D':
+            if d[0] in ('D', 'DV'):
                 try:
                     return self.lookup(d, ev(e.args[0]), depth)
                 except GeoKeyError:
@@ -333,7 +377,7 @@ class GeoInterp:
             v = ev(e.func.value)
             if v[0] == 'T':
                 fn = self.index.func('gym_gridverse/agent.py', 'Agent.front')
-                return self.call(fn, {fn.node.args.args[0].arg: v})
+                return self._call(fn, {fn.node.args.args[0].arg: v})
         if isinstance(e.func, ast.Name) and e.func.id in module.functions and depth > 0:
             fn = module.functions[e.func.id]
             names = [a.arg for a in fn.node.args.posonlyargs + fn.node.args.args
@@ -341,7 +385,7 @@ class GeoInterp:
             bound = dict(zip(names, [ev(a) for a in e.args]))
             for k, v in kw.items():
                 bound[k] = ev(v)
-            return self.call(fn, bound, depth - 1)
+            return self._call(fn, bound, depth - 1)
         r = self.index.resolve_callee(module, e.func, None)
         if isinstance(r, Func) and r.cls is None and depth > 0:
             names = [a.arg for a in r.node.args.posonlyargs + r.node.args.args
@@ -349,7 +393,7 @@ class GeoInterp:
             bound = dict(zip(names, [ev(a) for a in e.args]))
             for k, v in kw.items():
                 bound[k] = ev(v)
-            return self.call(r, bound, depth - 1)
+            return self._call(r, bound, depth - 1)
         if not kw and not any(isinstance(a, ast.Starred) for a in e.args):
             fv = ev(e.func)
             if fv[0] in ('F', 'K'):
@@ -358,6 +402,11 @@ class GeoInterp:
 
     def lookup(self, table, key, depth: int):
         """value of a dict literal at a key (the last of equal keys wins, as in Python)"""
+        if table[0] == 'DV':
+            vals = [v for k, v in table[1] if k == key]
+            if not vals:
+                raise GeoKeyError(key)
+            return vals[-1]
         _, node, mod = table
         hit = None
         for k, v in zip(node.keys, node.values):
@@ -413,7 +462,14 @@ class GeoInterp:
         return w
 
     def call(self, fn: Func, bound: Dict[str, Any], depth: int = 4):
-        """denotation of a small pure function for the given arguments"""
+        """denotation of a small pure function for the given arguments: the value of the first
+        return whose dominating guard holds; ('X', 'raise ...') when it raises"""
+        try:
+            return self._call(fn, bound, depth)
+        except GeoKeyError as e:
+            return ('X', f'raise KeyError({e})')
+
+    def _call(self, fn: Func, bound: Dict[str, Any], depth: int = 4):
         w = self.walk_of(fn)
         for e in w.events:
             if e.kind in ('return', 'raise'):
